@@ -277,7 +277,7 @@ pub fn inconclusive_status() -> i32 {
 /// end the check as INCONCLUSIVE (exit 2) - resource exhaustion is never a violation.
 extern "C" fn on_segv(_sig: libc::c_int) {
     let id = unsafe { std::str::from_utf8(&*std::ptr::addr_of!(CHECK_ID)).unwrap_or("?").trim_end_matches('\0').to_string() };
-    let mut msg = format!("INCONCLUSIVE property={id} reason=stack-overflow-or-segfault-in-worker");
+    let mut msg = format!("INCONCLUSIVE property={id} reason=stack-overflow-segfault-or-abort-in-worker");
     if let Ok(r) = RUNNING.try_lock() {
         for e in r.iter() {
             msg.push_str(&format!("\n  in-flight: {}", one_line(&e.2, 600)));
@@ -303,6 +303,8 @@ fn install_segv_handler(id: &str) {
         libc::sigemptyset(&mut sa.sa_mask);
         libc::sigaction(libc::SIGSEGV, &sa, std::ptr::null_mut());
         libc::sigaction(libc::SIGBUS, &sa, std::ptr::null_mut());
+        // abort(): a failed allocation in the code under test (Rust aborts on allocation failure)
+        libc::sigaction(libc::SIGABRT, &sa, std::ptr::null_mut());
     }
 }
 
